@@ -403,6 +403,14 @@ Definition any_throw (scs : list (list instr)) : bool :=
 Definition throw_codes (scs : list (list instr)) : list Z :=
   flat_map (fun sc => match src_throws sc with Some e => [e] | None => [] end) scs.
 
+(* closed cases (the generator completes every in-flight source): the last accepted answer is not Pending,
+   i.e. neither the consumer nor the destructor is left blocked *)
+Definition no_trailing_pend (os : list (Z * Z * Z * Z * Z * list Z)) : bool :=
+  match filter (fun o => ob_st o =? 0) (rev os) with
+  | o :: _ => negb (ob_kind o =? 5)
+  | [] => true
+  end.
+
 Definition aggr_oracle (ha : bool) (wops wobs : list (list Z)) : bool :=
   let ops := map (decode ha) wops in
   let os := map dec_obs wobs in
@@ -425,6 +433,7 @@ Definition aggr_oracle (ha : bool) (wops wobs : list (list Z)) : bool :=
          && forallb (fun t => negb (fst t =? 2)) rest
      end
   && args_ok ops os None
+  && no_trailing_pend os
   && (if destroyed_seen os
       then raii_balanced (all_triples os)
            && forallb (fun o => if (ob_st o =? 0) && (ob_kind o =? 7) then ob_bal o =? 0 else true) os
